@@ -608,6 +608,97 @@ def r13_14(chk, P, rule='R13.14'):
     return n
 
 
+def r13_15(chk, P, rule='R13.15'):
+    chk.rule(rule, 'a block is released with the dimensions it was allocated with: where a function obtains a block from a file-local '
+             'allocating helper A(.., x, ..) and hands it to a file-local releasing helper R(block, .., x, ..) together with a local x '
+             'that A also received (the record the helper reads the element count from), x is not assigned on any path between the '
+             'two calls.  A count source re-pointed in between (the info of the link a seek landed in) makes the release walk a '
+             'different number of elements than were allocated: the surplus leaks, or pointers past the array are freed.  '
+             '(No instance on the pinned tree, where the lapping scratch lives on the stack; the rule is armed for heap versions and '
+             'its positive control is the seeded change C13k1 of the thorough tier)')
+    n = 0
+
+    def calls_any(G, names):
+        return any(G.ex[c]['callee'].get('d') in names for c in G.calls())
+    for F in P.functions():
+        if F.entry is None:
+            continue
+        allocs = []
+        for e in F.pos:
+            nd = F.ex[e]
+            src = tgt = None
+            if nd['k'] == 'assign' and nd['op'] == '=':
+                l = F.ex[F.strip_casts(nd['c'][0])]
+                if l['k'] == 'ref' and l['decl'].get('kind') == 'var':
+                    tgt, src = l['decl']['id'], F.strip_casts(nd['c'][1])
+            elif nd['k'] == 'decl':
+                for v in nd['vars']:
+                    if 'id' in v and v.get('init'):
+                        tgt, src = v['id'], F.strip_casts(v['init'])
+            if src is None or F.ex[src]['k'] != 'call':
+                continue
+            G = P.get(F.ex[src]['callee'].get('d') or '', F)
+            if G is None or not G.static or G.entry is None:
+                continue
+            if not calls_any(G, ('malloc', 'calloc')):
+                continue
+            allocs.append((src, tgt))
+        if not allocs:
+            continue
+        # block-level reachability
+        reach = {}
+
+        def reaches(a, b):
+            if a not in reach:
+                seen, st = set(), list(s_ for s_ in F.blocks[a]['succs'] if s_ is not None)
+                while st:
+                    x = st.pop()
+                    if x in seen:
+                        continue
+                    seen.add(x)
+                    st += [s_ for s_ in F.blocks[x]['succs'] if s_ is not None]
+                reach[a] = seen
+            return b in reach[a]
+
+        def before(x, y):
+            """node x can execute before node y"""
+            bx, by = F.pos[x][0], F.pos[y][0]
+            if bx == by:
+                return F.pos[x][1] < F.pos[y][1] or reaches(bx, by)
+            return reaches(bx, by)
+        for (a, pvar) in allocs:
+            avars = {}
+            for i, arg in enumerate(F.ex[a].get('c', [])):
+                an = F.ex[F.strip_casts(arg)]
+                if an['k'] == 'ref' and an['decl'].get('kind') in ('var', 'param'):
+                    avars[an['decl']['id']] = an['decl'].get('name', '?')
+            for r in F.calls():
+                G = P.get(F.ex[r]['callee'].get('d') or '', F)
+                if G is None or not G.static or G.entry is None or not calls_any(G, ('free',)):
+                    continue
+                rargs = [F.ex[F.strip_casts(x)] for x in F.ex[r].get('c', [])]
+                if not any(x['k'] == 'ref' and x['decl'].get('id') == pvar for x in rargs) or not before(a, r):
+                    continue
+                for x in rargs:
+                    if x['k'] != 'ref' or x['decl'].get('id') == pvar or x['decl'].get('id') not in avars:
+                        continue
+                    vid = x['decl']['id']
+                    redefs = []
+                    for e in F.pos:
+                        nd = F.ex[e]
+                        if nd['k'] == 'assign':
+                            l = F.ex[F.strip_casts(nd['c'][0])]
+                            if l['k'] == 'ref' and l['decl'].get('id') == vid and before(a, e) and before(e, r):
+                                redefs.append(e)
+                    ok = not redefs
+                    chk.ob(rule, F.name, f'released-with-the-allocation-dimensions:{avars[vid]}@{F.ex[r]["callee"].get("d")}', ok, F.where(r),
+                           f'`{avars[vid]}` is the same at `{F.s(a)[:40]}` and `{F.s(r)[:40]}`' if ok else
+                           f'`{avars[vid]}` is assigned on line {F.loc(redefs[0])} between `{F.s(a)[:40]}` and `{F.s(r)[:40]}`: the release '
+                           'reads its element count from another object than the allocation did')
+                    n += 1
+    return n
+
+
 def r13_8(chk, P, K, res):
     chk.rule('R13.8', 'where a release function frees the elements of an owning pointer array in a loop bounded by a count field '
              '(pairs derived from the release functions), every store of fresh memory into an element of that array is covered '
@@ -1088,6 +1179,7 @@ def run(chk, P):
     r13_8(chk, P, K, res)
     r13_14(chk, P)
     chk.floor('R13.14', 7)
+    r13_15(chk, P)
     chk.floor('R13.8', 8)
     r13_9(chk, P, K)
     chk.floor('R13.9', 1)
